@@ -209,7 +209,8 @@ def language_evaluation(chk, repo):
     impossible = ["140230", "150229", "140431", "140631", "140931", "141131", "140100", "140001", "141301", "149901", "140132", "180732", "121426", "180035", "000000", "999999", "146031"]
     for bad in impossible:
         expect_valueerror("decode_scene_id", f"ALOS2012345678-{bad}", f"{bad[2:4]}/{bad[4:6]} of 20{bad[:2]} is not a calendar date")
-    for m in ("ALOS2012345678-14010", "ALOS2012345678-1401022", "ALOS201234567-140102", "ALOS2012345678_140102", "alos2012345678-140102", "ALOS2012345678-14O102", "ALOS20123456x8-140102", "ALOS2012345678-140102 ", ""):
+    for m in ("ALOS2012345678-14010", "ALOS2012345678-1401022", "ALOS201234567-140102", "ALOS2012345678_140102", "alos2012345678-140102", "ALOS2012345678-14O102", "ALOS20123456x8-140102", "ALOS2012345678-140102 ", "",
+              "ALOS20123456789-140102", "ALOS22253332000-180726", "ALOS2012345678-20140102"):
         expect_valueerror("decode_scene_id", m, "it is not <mission 5><orbit 5><frame 4>-<yymmdd>")
     # digits of other scripts are decimal digits for `\\d`, int() and strptime alike - but they are not the format's digits
     base_sid = "ALOS2012345678-160229"
@@ -236,7 +237,8 @@ def language_evaluation(chk, repo):
     for m, why in ((good + "x", "trailing garbage"), ("x" + good, "leading garbage"), (good.replace("-HH-", "-HX-"), "polarisation HX"), (good.replace("-HH-", "-HHH-"), "three-letter polarisation"),
                    (good.replace("-B3", "-B"), "scan suffix without number"), (good.replace("-B3", "-C3"), "scan method C"), (good.replace(sid, "ALOS2012345678-180732"), "impossible date"),
                    (good.replace(pid_sample[0], "WBDR1.6RUD"), "level 1.6"), (good.replace(pid_sample[0], "QQQR1.5RUD"), "unknown mode"), (good.replace("IMG-", "IMG_"), "wrong separator"),
-                   (good.replace("-" + sid, ""), "missing scene id"), (good.lower(), "lower case")):
+                   (good.replace("-" + sid, ""), "missing scene id"), (good.lower(), "lower case"),
+                   (good.replace(sid, "ALOS20123456789-160229"), "scene id with one digit too many"), (good.replace(sid, "ALOS2012345678-20160229"), "date with a century")):
         expect_valueerror("decode_filename", m, why)
         if m.startswith("IMG-H"):
             expect_valueerror("filename_to_groupname", m, why + " (image file name)", scope=I.module_scope(si))
